@@ -35,6 +35,7 @@ type iw struct {
 	stall  bool
 	// burstResize: feedBurst also resizes the window while the burst sits unpolled
 	burstResize bool
+	touch       bool
 }
 
 func describe(ev tcell.Event) string {
@@ -66,12 +67,16 @@ func describe(ev tcell.Event) string {
 func keyDesc(k tcell.Key, mod tcell.ModMask) string { return fmt.Sprintf("key:%d:%d", k, mod) }
 func runeDesc(r rune, mod tcell.ModMask) string     { return fmt.Sprintf("key:Rune:%d:%d", r, mod) }
 
+// iwTouch: the poller of the next worlds also calls Size() and
+// HasPendingEvent() before every PollEvent.
+var iwTouch bool
+
 func newIW(cfg hx.Config, ch *simrt.Chooser) (*iw, error) {
 	world, err := hx.NewWorld(cfg, ch)
 	if err != nil {
 		return nil, err
 	}
-	w := &iw{World: world}
+	w := &iw{World: world, touch: iwTouch}
 	w.S.TraceOn = hx.Replaying()
 	w.S.Spawn("app", func() {
 		w.err = w.Scr.Init()
@@ -83,6 +88,11 @@ func newIW(cfg hx.Config, ch *simrt.Chooser) (*iw, error) {
 			return
 		}
 		for {
+			if w.touch {
+				// what applications do between two polls: look at the screen
+				w.Scr.Size()
+				w.Scr.HasPendingEvent()
+			}
 			ev := w.Scr.PollEvent()
 			if ev == nil {
 				return
